@@ -2,6 +2,11 @@ CONSTANTS
   Seeds = {0}
   DTs = {"f", "i"}
   ShAll = {"s", "3", "2x3", "0"}
+  InLays = {"C", "S"}
+  OutLays = {"C", "F", "S", "R", "O"}
+  KwKinds = {"handled", "override"}
+  KwShapes = {"40", "3x40"}
+  KwDC = {"ties", "nan"}
 INIT Init
 NEXT Next
 INVARIANT Export
